@@ -22,6 +22,12 @@ RULE = ('T2: URI.abspath / URI.normalize / URI.__eq__ evaluated by the Gallina m
 	'with encoded delimiters/dots (%2f %2F %2e %5c %252f ...) bare, on http://h and through the textual form, every scheme of URI.SCHEMES read at run time x letter '
 	'case x port form x class, Unicode normalisation forms / look-alikes and degenerate values in every text position, lengths around 12..65536 in every position '
 	'(> 4200 octets oracle-only), objects modified through every public setter between uses against a fresh object built from the same final components. '
+	'Fourth-wave classes: every member of the comparison family (== != <= >= in both operand orders, right operand as object / bytes / str / component tuple / dict; the '
+	'existing equality triples now record != and the reflected textual forms as well) against the normal form written from the property text, on pairs built through '
+	'every construction path (parsed, tuple, dict, copy, copy.copy/deepcopy, rebuilt from .tuple); read-only observers (repr str bytes hash bool len iter in dict sorted '
+	'format copy deepcopy == != <= every public attribute) applied to an object or to a copy of it before use must leave its state and everything it then does unchanged '
+	'(compared with a fresh unobserved object); metacharacters and reserved names (: / ? # @ = & ; , % " .. // scheme names, port numbers, whole URIs) inside user, password, '
+	'query, fragment and inside path segments, as component values and through the textual form, with operands that differ only by a normalisation applied to the wrong component. '
 	'non-trivial = distinct input whose normalised form differs from the input')
 EXHAUSTIVE = {'quick': True, 'thorough': True}
 TRUSTED = ['harness/tables/urinorm.py (T1: URI.SCHEMES -> PORT, URI.PORT, probe of normalize() on an upper-case known scheme)',
@@ -176,6 +182,7 @@ def gen_cases(rng, tier):
 					xs.append({'cls': 'URI', 't': t})
 		cases.append({'k': 'eq', 'xs': xs})
 	cases.extend(gen_classes(rng, tier))
+	cases.extend(gen_wave4(rng, tier))
 	return cases
 
 
@@ -450,6 +457,164 @@ def _mutation(rng):
 	return ['copyfrom', rng.choice(CLASSES), _base(rng)]
 
 
+# ---------------------------------------------------------------- fourth wave of input classes
+# (7) read-only observers before use, (8) every member of the comparison family with every operand type and every
+# construction path, (9) metacharacters / reserved names of one component inside a neighbouring one.
+# Appended after everything else so that the random stream of the earlier generators is unchanged.
+
+OBSERVERS = ['repr', 'str', 'bytes', 'hash', 'bool', 'len', 'iter', 'in', 'dict', 'sorted', 'format', 'copy', 'deepcopy', 'eq', 'ne', 'eqtext', 'netext',
+	'le', 'ge', 'attrs', 'tupleattr', 'dictattr', 'segments', 'query', 'hostname', 'portattr', 'composeiter']
+HOWS = [None, None, 'copy', 'retuple', 'redict', 'copycopy', 'deepcopy', 'setfrom']
+META = [':', '/', '?', '#', '@', '=', '&', ';', ',', '%', '"', '..', '.', '/..', '/../', '/./', '//', 'a//b', 'a/./b', 'a/../b', '/a/../b', 'x/..', 'a:b', 'a@b', 'a?b', 'a#b',
+	'x=y&z=w', 'x=//y/../z', 'k=a/./b&k=a/b', '%2f', '%2F..', '%2e%2e', '%3a', '%40', '%25', 'http', 'HTTP', 'Https', 'ftp', 'http://x/y', 'HTTP://H:80/a/../b', '//h/p',
+	'80', ':80', '443', 'Q=A/../B', 'u:p@h', '[::1]', 'a b', 'A', 'Ab']
+META_SEGS = ['a:b', ':', '@', 'a@b', 'a?b', '?', '#', 'a#b', '=', '&', 'x=1&y', ';', ',', 'a;b=c', '%', '"', 'a"b', 'http:', 'http:..', '..:', '..?', '..#', '.;', '..;x', '..%', '.?', '.#',
+	'80', ':80', '%3a', '%3f..', '%23', '?..', '#.', '..@', 'HTTP', 'A']
+# spellings of one URI and of URIs that differ from it in one respect (the family of the operator checks)
+FAMILY = ['http://example.com/a/b', 'http://example.com/a/./b', 'http://example.com/a/c/../b', 'http://example.com//a///b', 'HTTP://EXAMPLE.COM:80/a/b', 'http://example.com:80/x/../a/b',
+	'http://example.com:/../a/b', 'http://Example.com/a/b/', 'http://example.com/a/b/.', 'http://example.com/a/b/c/..', 'https://example.com/a/b', 'http://example.com:8080/a/b',
+	'http://example.com/', 'http://example.com/..', 'http://example.com/a/..', 'http://example.com', 'http://example.com/a/b?', 'http://example.com/a/b?q', 'http://example.com/a/b#f',
+	'http://u@example.com/a/b', 'ftp://example.com/a/b', 'ftp://EXAMPLE.com:21/a/./b', 'x-y://example.com/a/b', 'X-Y://example.com/a//b']
+
+
+def _wrong_component(rng, t):
+	"""the tuple with a normalisation of the property applied to a component it does not apply to (user, password, query, fragment):
+	dot-segment removal, slash collapsing, lower-casing, a default port; None when nothing changes"""
+	t = list(t)
+	slots = [i for i in (1, 2, 6, 7) if t[i]]
+	rng.shuffle(slots)
+	for i in slots:
+		v = t[i]
+		for w in rng.sample([U.rfc_rds(U.collapse(v)), U.collapse(v), U.rfc_rds(v), v.lower(), v.upper(), v.replace(':80', ''), v.replace('%2f', '/'), v.replace('%2F', '/'), v.replace('/', '%2f')], 9):
+			if w != v:
+				t[i] = w
+				return t
+	return None
+
+
+def _meta_base(rng):
+	t = rtuple(rng, absolute=True, path=_rooted(rng))
+	for slot in (1, 2, 6, 7):
+		if rng.random() < 0.6:
+			t[slot] = rng.choice(META) if rng.random() < 0.7 else rng.choice(META) + rng.choice(['', '/', '&', ':']) + rng.choice(META)
+	if rng.random() < 0.6:
+		t[5] = '/' + U.rpath(rng, 1, 5, META_SEGS + U.SEGS8[:5] + ['..', '.', ''])
+	if rng.random() < 0.15:
+		t[3] = rng.choice(['http', 'HTTP', '80', 'Ftp', 'h'])
+	return t
+
+
+def _meta_text(rng):
+	"""a textual absolute URI (RFC 3986 section 3 grammar, written by hand) whose user, password, path segments, query and fragment carry the
+	delimiters of the other components, literally where the grammar allows them and percent-encoded where it does not"""
+	s = rng.choice(['http', 'HTTP', 'https', 'ftp', 'x-y', 'X-Y'])
+	h = rng.choice(['h', 'Example.COM', '[::1]', '127.0.0.1', 'http', 'HTTP'])
+	enc = lambda ch: ('%%%02x' if rng.random() < 0.5 else '%%%02X') % ord(ch)
+	def piece(literal, encoded, lo=1, hi=4):
+		return ''.join(rng.choice([rng.choice(literal), enc(rng.choice(encoded)), rng.choice(['a', 'B', '..', '.', '80'])]) for _ in range(rng.randint(lo, hi)))
+	ui = ''
+	if rng.random() < 0.5:
+		ui = piece(";,=&!$'", ':/?#@%"') + (':' + piece(";,=&:!", '/?#@%"') if rng.random() < 0.6 else '') + '@'
+	port = rng.choice(['', '', ':', ':80', ':443', ':21', ':8080', ':080'])
+	segs = [rng.choice(['a', 'b', '.', '..', '', piece(":@;,=&", '?#%"'), piece(":@;,=", '?#"'), '..' + enc('?'), enc('#') + '..', '.;x', '..;x', 'a:b']) for _ in range(rng.randint(0, 5))]
+	path = ('/' + '/'.join(segs)) if segs or rng.random() < 0.5 else ''
+	if port == ':' and path.startswith('//'):
+		port = ''
+	q = ''
+	if rng.random() < 0.7:
+		q = '?' + '&'.join(rng.choice(['a=b', 'A=B', 'k=/../x', 'k=//x', 'k=a/./b', 'k=:@/?', 'x=%2f..', 'x=%23', 'x=%3d%26', 'p=http://H:80/a/../b', 'q=1', 'k=..', 'k=.', 'k=%2E%2e']) for _ in range(rng.randint(1, 3)))
+	f = ''
+	if rng.random() < 0.7:
+		f = '#' + rng.choice(['f', 'F', '/../x', '//x', 'a/./b', ':@/?', '?q=1', enc('#'), enc('%') + '2f', 'http://H:80/a/../b', '..', '.', '/', enc('"')])
+	txt = '%s://%s%s%s%s%s%s' % (s, ui, h, port, path, q, f)
+	if '://' in txt[len(s) + 3:].split('?')[0].split('#')[0]:
+		return _meta_text(rng)  # a second '://' before the query is read by URI.parse as the scheme delimiter (same restriction as render_text; URI.parse is C10's business)
+	return txt
+
+
+def _pre(rng, p_none=0.4):
+	if rng.random() < p_none:
+		return []
+	return [[rng.choice(OBSERVERS), rng.choice(['self', 'self', 'copy', 'copycopy'])] for _ in range(rng.randint(1, 4))]
+
+
+def _spec(rng, t, p_text=0.35, cls=None):
+	sp = None
+	if rng.random() < p_text:
+		txt = render_text(rng, t)
+		if txt is not None:
+			sp = {'text': txt, 'cls': rng.choice(['URI', 'URI', 'HTTP', 'FTP'])}
+	if sp is None:
+		sp = {'cls': cls or rng.choice(CLASSES), 't': list(t), 'via': rng.choice(['tuple', 'dict'])}
+	sp['nf'] = indep_nf(t)
+	sp['how'] = rng.choice(HOWS)
+	return sp
+
+
+def gen_wave4(rng, tier):
+	big = tier == 'thorough'
+	mul = 5 if big else 1
+	cases = []
+	# -- (8) every comparison operator, both operand orders, every operand type, every construction path: all ordered pairs of a family of spellings
+	for i, a in enumerate(FAMILY):
+		for j, b in enumerate(FAMILY):
+			cases.append({'k': 'ops', 'a': {'text': a, 'cls': 'URI', 'how': HOWS[(i + j) % len(HOWS)]}, 'b': {'text': b, 'cls': 'URI', 'how': HOWS[(i * 3 + j * 5 + 1) % len(HOWS)]}, 'pre': []})
+	# random pairs: equal by construction (written differently), different in exactly one component, identical, unrelated
+	for n in range(1000 * mul):
+		m = n % 6
+		base = _meta_base(rng) if m == 3 else _base(rng, uni=m == 1, degen=m == 2)
+		r = rng.random()
+		if r < 0.5:
+			other = variant_of(rng, base)
+		elif r < 0.75:
+			other = perturb(rng, base, rng.randrange(8))
+		elif r < 0.85:
+			other = list(base)
+		elif r < 0.93:
+			other = _wrong_component(rng, base) or rtuple(rng)
+		else:
+			other = rtuple(rng)
+		pre = _pre(rng, 0.6)
+		cases.append({'k': 'ops', 'a': _spec(rng, base), 'b': _spec(rng, other), 'pre': pre})
+	# -- (7) read-only observers between construction and use (normalize, ==): against the components the object was built from
+	for n in range(450 * mul):
+		m = n % 4
+		t = _meta_base(rng) if m == 3 else _base(rng, uni=m == 1, degen=m == 2)
+		cases.append({'k': 'norm', 'cls': rng.choice(CLASSES), 'via': rng.choice(['tuple', 'dict']), 't': t, 'pre': _pre(rng, 0.0)})
+	for n in range(150 * mul):
+		cases.append({'k': 'norm', 'cls': 'URI', 'text': rtext(rng) if n % 2 else _meta_text(rng), 'pre': _pre(rng, 0.0)})
+	#    and interleaved with modifications of the object: the expectation is a fresh, never observed object built from the same final data
+	for n in range(400 * mul):
+		ops = []
+		for _ in range(rng.randint(2, 6)):
+			ops.append(_mutation(rng) if rng.random() < 0.4 else ['obs'] + _pre(rng, 0.0)[0])
+		cases.append({'k': 'mut', 'cls': rng.choice(CLASSES), 't': _base(rng, uni=n % 5 == 1, degen=n % 5 == 2), 'ops': ops})
+	# -- (9) metacharacters and reserved names inside the neighbouring components: as component values ...
+	for n in range(500 * mul):
+		cases.append({'k': 'norm', 'cls': rng.choice(CLASSES), 'via': rng.choice(['tuple', 'dict']), 't': _meta_base(rng)})
+	#    ... through the textual form ...
+	for n in range(350 * mul):
+		cases.append({'k': 'norm', 'cls': 'URI', 'text': _meta_text(rng)})
+	#    ... and under ==: a normalisation applied to the wrong component makes a different URI
+	for n in range(350 * mul):
+		base = _meta_base(rng)
+		var = variant_of(rng, base)
+		xs = [_operand(rng, base, p_text=0.3), _operand(rng, var, p_text=0.3)]
+		w = _wrong_component(rng, base)
+		if w is not None:
+			xs.append(_operand(rng, w, p_text=0.3))
+			w2 = list(var)
+			w2[1], w2[2], w2[6], w2[7] = w[1], w[2], w[6], w[7]
+			xs.append(_operand(rng, w2, p_text=0.3))
+		else:
+			xs.append(_operand(rng, perturb(rng, base, rng.choice([1, 2, 6, 7])), p_text=0.3))
+		cases.append({'k': 'eq', 'xs': xs})
+	for n in range(150 * mul):
+		ta, tb = _meta_text(rng), _meta_text(rng)
+		cases.append({'k': 'eq', 'xs': [{'text': ta}, {'text': tb}, {'text': rng.choice([ta, tb]).replace('/./', '/').replace('HTTP', 'http').replace('X-Y', 'x-y')}]})
+	return cases
+
+
 # ---------------------------------------------------------------- observation of the real code
 
 def _mk(spec):
@@ -457,6 +622,166 @@ def _mk(spec):
 	if 'text' in spec:
 		return C['URI'](spec['text'].encode('ascii'))
 	return C[spec['cls']](tuple(spec['t']))
+
+
+def _build(spec):
+	"""an operand through the construction path the case names"""
+	import copy
+	C = U.classes()
+	if 'text' in spec:
+		x = C[spec.get('cls', 'URI')](spec['text'].encode('ascii'))
+	elif spec.get('via') == 'dict':
+		x = C[spec['cls']](**dict(zip(FIELDS, spec['t'])))
+	else:
+		x = C[spec['cls']](tuple(spec['t']))
+	how = spec.get('how')
+	if how == 'copy':
+		x = type(x)(x)
+	elif how == 'retuple':
+		x = C['URI'](x.tuple)
+	elif how == 'redict':
+		x = C['URI'](x.dict)
+	elif how == 'copycopy':
+		x = copy.copy(x)
+	elif how == 'deepcopy':
+		x = copy.deepcopy(x)
+	elif how == 'setfrom':
+		y = C['URI']()
+		y.set(x)
+		x = y
+	return x
+
+
+def _ro(u, name, target='self'):
+	"""one read-only use of u (or of a copy of u); whatever it answers or raises is not this property's business, what it leaves behind is"""
+	import copy
+	x = u
+	if target == 'copy':
+		x = type(u)(u)
+	elif target == 'copycopy':
+		x = copy.copy(u)
+	try:
+		if name == 'repr':
+			repr(x)
+		elif name == 'str':
+			str(x)
+		elif name == 'bytes':
+			bytes(x)
+		elif name == 'hash':
+			hash(x)
+		elif name == 'bool':
+			bool(x)
+		elif name == 'len':
+			len(x)
+		elif name == 'iter':
+			list(iter(x))
+		elif name == 'in':
+			'a' in x
+		elif name == 'dict':
+			dict(x)
+		elif name == 'sorted':
+			sorted([x, u])
+		elif name == 'format':
+			format(x)
+		elif name == 'copy':
+			copy.copy(x)
+		elif name == 'deepcopy':
+			copy.deepcopy(x)
+		elif name == 'eq':
+			x == u
+			u == type(u)(u)
+		elif name == 'ne':
+			x != u
+			u != type(u)(u)
+		elif name == 'eqtext':
+			x == b'http://example.com/a/../b'
+			u'HTTP://h/' == x
+		elif name == 'netext':
+			x != b'http://example.com/a/../b'
+			u'HTTP://h/' != x
+		elif name == 'le':
+			x <= u
+		elif name == 'ge':
+			x >= u
+		elif name == 'attrs':
+			for a in ('scheme', 'username', 'password', 'host', 'hostname', 'port', 'path', 'path_segments', 'query_string', 'query', 'fragment', 'tuple', 'dict', 'PORT', 'encoding', 'slots'):
+				getattr(x, a)
+		elif name == 'tupleattr':
+			x.tuple
+		elif name == 'dictattr':
+			x.dict
+		elif name == 'segments':
+			x.path_segments
+		elif name == 'query':
+			x.query
+		elif name == 'hostname':
+			x.hostname
+		elif name == 'portattr':
+			x.port
+		elif name == 'composeiter':
+			list(x._compose_absolute_iter())
+		else:
+			raise KeyError('harness: unknown observer %r' % (name,))
+	except KeyError:
+		raise
+	except Exception:  # composing a degenerate host (IDNA), decoding a degenerate query ... is the component property's business
+		pass
+
+
+def _cmp(op, a, b):
+	try:
+		if op == 'eq':
+			r = a == b
+		elif op == 'ne':
+			r = a != b
+		elif op == 'le':
+			r = a <= b
+		else:
+			r = a >= b
+	except TypeError:
+		return 'TypeError'
+	return r if isinstance(r, bool) else repr(r)
+
+
+def _dispatch_port(x, y):
+	# Python tries the reflected method of a proper subclass first
+	kcls = type(y) if (type(y) is not type(x) and issubclass(type(y), type(x))) else type(x)
+	return kcls.PORT
+
+
+def _obs_ops(c):
+	a, b = _build(c['a']), _build(c['b'])
+	o = {'sa0': U.state(a), 'sb0': U.state(b)}
+	for name, target in c.get('pre', []):
+		_ro(a, name, target)
+		_ro(b, name, target)
+	o['sa'], o['sb'] = U.state(a), U.state(b)
+	o['lower_idem'] = all(s.lower().lower() == s.lower() for st in (o['sa'], o['sb']) for s in (st['t'][0], st['t'][3]))
+	o['d0'] = _dispatch_port(a, b)
+	forms = [('obj', b), ('tuple', b.tuple), ('dict', b.dict)]
+	if 'text' in c['b']:
+		forms += [('bytes', c['b']['text'].encode('ascii')), ('str', c['b']['text'])]
+	res = {}
+	for fname, f in forms:
+		row = {}
+		for op in ('eq', 'ne', 'le', 'ge'):
+			row[op] = _cmp(op, a, f)
+			row['r' + op] = _cmp(op, f, a)
+		res[fname] = row
+	res['self'] = {op: _cmp(op, a, a) for op in ('eq', 'ne', 'le', 'ge')}
+	o['res'] = res
+	o['sa2'], o['sb2'] = U.state(a), U.state(b)
+	# the observed objects against fresh ones that nobody looked at
+	fa, fb = _build(c['a']), _build(c['b'])
+	o['fresh'] = [_cmp('eq', a, fa), _cmp('ne', a, fa), _cmp('eq', fa, a), _cmp('ne', fa, a), _cmp('eq', b, fb), _cmp('ne', b, fb)]
+	o['feq'] = [_cmp('eq', fa, fb), _cmp('ne', fa, fb)]
+	a.normalize()
+	fa.normalize()
+	o['na'], o['nfa'] = U.state(a), U.state(fa)
+	o['puba'] = U.public(a)
+	b.normalize()
+	o['nb'], o['pubb'] = U.state(b), U.public(b)
+	return o
 
 
 def _obs_path(p):
@@ -511,6 +836,11 @@ def _obs_mut(c):
 					pass
 			else:
 				bool(u == type(u)(u))
+		elif w == 'obs':
+			before = U.state(u)
+			_ro(u, op[1], op[2])
+			if U.state(u) != before:
+				return {'observer_changed': [op, before, U.state(u)]}
 		elif w == 'attr':
 			setattr(u, op[1], op[2])
 		elif w == 'tuple':
@@ -531,6 +861,7 @@ def _obs_mut(c):
 	fresh = C['URI'](tuple(u.tuple))
 	o['fc'] = U.state(fresh)
 	o['eq1'] = [bool(u == fresh), bool(fresh == u), bool(u == u)]
+	o['ne1'] = [_cmp('ne', u, fresh), _cmp('ne', fresh, u), _cmp('ne', u, u)]
 	o['f2'] = U.state(u)
 	u.normalize()
 	o['n1'] = U.state(u)
@@ -540,6 +871,7 @@ def _obs_mut(c):
 	fresh.normalize()
 	o['fn1'] = U.state(fresh)
 	o['eq2'] = [bool(u == fresh), bool(fresh == u), bool(u == u)]
+	o['ne2'] = [_cmp('ne', u, fresh), _cmp('ne', fresh, u), _cmp('ne', u, u)]
 	w = type(u)(u)
 	w.normalize()
 	o['copy'] = U.state(w)
@@ -568,7 +900,13 @@ def observe(c):
 					u = C[c['cls']](**dict(zip(('scheme', 'username', 'password', 'host', 'port', 'path', 'query_string', 'fragment'), t)))
 				else:
 					u = C[c['cls']](tuple(t))
+			if c.get('pre'):
+				c0 = U.state(u)
+				for name, target in c['pre']:
+					_ro(u, name, target)
 			o = {'c': U.state(u)}
+			if c.get('pre'):
+				o['c0'] = c0
 			if 'text' in c:
 				o['t'] = t
 			u.normalize()
@@ -584,6 +922,7 @@ def observe(c):
 		if k == 'eq':
 			objs = [_mk(s) for s in c['xs']]
 			o = {'st': [U.state(x) for x in objs], 'm': [], 'd0': [], 'raw': [], 'rawst': [], 'pub': [], 'lower_idem': True}
+			o['ne'], o['rawx'] = [], []
 			o['lower_idem'] = all(s.lower().lower() == s.lower() for st in o['st'] for s in (st['t'][0], st['t'][3]))
 			for x in objs:
 				w = type(x)(x)
@@ -591,8 +930,10 @@ def observe(c):
 				o['pub'].append(U.public(w))
 			for i, x in enumerate(objs):
 				row, drow, rrow, rst = [], [], [], []
+				nrow, xrow = [], []
 				for j, y in enumerate(objs):
 					row.append(bool(x == y))
+					nrow.append(_cmp('ne', x, y))
 					# Python tries the reflected method of a proper subclass first
 					kcls = type(y) if (type(y) is not type(x) and issubclass(type(y), type(x))) else type(x)
 					drow.append(kcls.PORT)
@@ -600,10 +941,14 @@ def observe(c):
 						raw = c['xs'][j]['text'].encode('ascii')
 						rrow.append(bool(x == raw))
 						rst.append(U.state(type(x)(raw)))
+						xrow.append([_cmp('ne', x, raw), _cmp('eq', raw, x), _cmp('ne', raw, x), _cmp('eq', x, c['xs'][j]['text']), _cmp('ne', c['xs'][j]['text'], x)])
 					else:
 						rrow.append(None)
 						rst.append(None)
+						xrow.append(None)
 				o['m'].append(row)
+				o['ne'].append(nrow)
+				o['rawx'].append(xrow)
 				o['d0'].append(drow)
 				o['raw'].append(rrow)
 				o['rawst'].append(rst)
@@ -611,6 +956,8 @@ def observe(c):
 			return o
 		if k == 'mut':
 			return _obs_mut(c)
+		if k == 'ops':
+			return _obs_ops(c)
 	except Exception as exc:
 		return {'err': U.exc_name(exc), 'msg': str(exc)[:200]}
 	raise ValueError(k)
@@ -634,6 +981,18 @@ def coq_case(c, o):
 		return 'CAbs [(X "", (X "00", X "00"))]' if str(o.get('err', 'escape')).startswith('escape') else None  # escaping exception: force a disagreement
 	if c.get('nocoq'):
 		return None  # length class beyond what a case file affords: oracle only
+	if 'observer_changed' in o:
+		return None  # reported by the oracle; there is no state to hand to the model
+	if k == 'ops':
+		# the objects as they are after the observers: normalize and == of the model on exactly these states
+		out = []
+		for st, n in ((o['sa'], o['na']), (o['sb'], o['nb'])):
+			out.append('CNorm %s %s %s %s %s' % (U.ltab([st['t'][0], st['t'][3]]), U.coq_port(st['P']), U.coq_uri(None, st['t']), U.coq_state(st), U.coq_state(n)))
+		r = o['res']['obj']['eq']
+		if isinstance(r, bool):
+			out.append('CEq %s %s' % (U.ltab([o['sa']['t'][0], o['sa']['t'][3], o['sb']['t'][0], o['sb']['t'][3]]),
+				L(['(%s, %s, %s, %s)' % (U.coq_port(o['d0']), U.coq_uri(None, o['sa']['t']), U.coq_uri(None, o['sb']['t']), B(r))])))
+		return out
 	if k == 'mut':
 		return 'CNorm %s %s %s %s %s' % (U.ltab([o['f']['t'][0], o['f']['t'][3]]), U.coq_port(U.classes()['URI'].PORT), U.coq_uri(None, o['f']['t']), U.coq_state(o['fc']), U.coq_state(o['fn1']))
 	if k == 'path':
@@ -697,6 +1056,11 @@ def oracle(c, o):
 			if f:
 				return f
 		return None
+	if 'observer_changed' in o:
+		op, before, after = o['observer_changed']
+		return 'the read-only use %r changed the object: %r became %r (case %r)' % (op, before, after, c)
+	if k == 'ops':
+		return _ops_failure(c, o)
 	if k == 'mut':
 		f = o['f']
 		if o['f2'] != f:
@@ -710,9 +1074,13 @@ def oracle(c, o):
 			return 'an object modified through %r normalises to %r, a fresh object built from the same components %r to %r' % (c['ops'], o['n1'], f['t'], o['fn1'])
 		if not all(o['eq1']) or not all(o['eq2']):
 			return 'an object modified through %r does not compare equal to a fresh object built from the same components %r (before normalize %r, after %r)' % (c['ops'], f['t'], o['eq1'], o['eq2'])
+		if 'ne1' in o and (any(x is not False for x in o['ne1']) or any(x is not False for x in o['ne2'])):
+			return '!= between an object modified/observed through %r and a fresh object built from the same components %r is not False (before normalize %r, after %r) although == is True' % (c['ops'], f['t'], o['ne1'], o['ne2'])
 		return None
 	if k == 'norm':
 		t = _mt(o['t'] if 'text' in c else c['t'])
+		if 'c0' in o and o['c0'] != o['c']:
+			return 'the read-only uses %r changed the object: %r became %r' % (c['pre'], o['c0'], o['c'])
 		if not o['lower_idem']:
 			return None  # outside the stated assumption on str.lower
 		return _norm_failure(t, o)
@@ -720,7 +1088,77 @@ def oracle(c, o):
 		f = _eq_failure(c, o)
 		if f:
 			return f
-		return _eq_failure2(c, o)
+		return _eq_failure2(c, o) or _eq_family_failure(c, o)
+	return None
+
+
+def _eq_family_failure(c, o):
+	"""the other members of the family on the same operands: != is the negation of ==, whichever operand is the object and whatever form the other has"""
+	if not o['lower_idem'] or 'ne' not in o:
+		return None
+	n = len(c['xs'])
+	absolute = [bool(st['t'][0] and st['t'][3]) for st in o['st']]
+	for i in range(n):
+		for j in range(n):
+			if not (absolute[i] and absolute[j]):
+				continue
+			if o['ne'][i][j] is not (not o['m'][i][j]):
+				return '!= answers %r where == answers %r (normalised components %r , %r): %r , %r' % (o['ne'][i][j], o['m'][i][j], o['pub'][i], o['pub'][j], c['xs'][i], c['xs'][j])
+			x = o['rawx'][i][j]
+			if x is not None:
+				want = [not o['m'][i][j], o['m'][i][j], not o['m'][i][j], o['m'][i][j], not o['m'][i][j]]
+				if x != want:
+					return ('the object against the textual form of the other operand: [obj != bytes, bytes == obj, bytes != obj, obj == str, str != obj] is %r, == between the objects is %r: %r , %r'
+						% (x, o['m'][i][j], c['xs'][i], c['xs'][j]))
+	return None
+
+
+def _ops_failure(c, o):
+	for who, s0, s1, s2 in (('left', o['sa0'], o['sa'], o['sa2']), ('right', o['sb0'], o['sb'], o['sb2'])):
+		if s0 != s1:
+			return 'the read-only uses %r changed the %s operand: %r became %r (case %r)' % (c.get('pre'), who, s0, s1, c)
+		if s1 != s2:
+			return 'a comparison operator modified its %s operand: %r became %r (case %r)' % (who, s1, s2, c)
+	if not o['lower_idem']:
+		return None
+	ta, tb = o['sa']['t'], o['sb']['t']
+	if not (ta[0] and ta[3] and tb[0] and tb[3]):
+		return None
+	self_want = {'eq': True, 'ne': False, 'le': True, 'ge': True}
+	if o['res']['self'] != self_want:
+		return 'an absolute URI object compared with itself: %r, expected %r (case %r)' % (o['res']['self'], self_want, c['a'])
+	verdicts = []
+	for what, na, nb in (('the components they were built from', c['a'].get('nf'), c['b'].get('nf')), ('their components after construction', indep_nf(ta), indep_nf(tb))):
+		if na is not None and nb is not None:
+			verdicts.append((what, na == nb, na, nb))
+	same = o['puba'] == o['pubb']
+	verdicts.append(('their normalised public components', same, o['puba'], o['pubb']))
+	for what, want, na, nb in verdicts:
+		for form, row in sorted(o['res'].items()):
+			if form == 'self':
+				continue
+			for op, got in sorted(row.items()):
+				base = op[1:] if op.startswith('r') else op
+				if base == 'eq':
+					ok = got is want
+				elif base == 'ne':
+					ok = got is (not want)
+				else:  # <= and >= are "== or < / >": there is no order on URIs, so they can only hold where == holds
+					ok = (got is True) if want else (got is not True)
+				if not ok:
+					sym = {'eq': '==', 'ne': '!=', 'le': '<=', 'ge': '>='}[base]
+					shown = ('%s %s URI' % (form, sym)) if op.startswith('r') else ('URI %s %s' % (sym, form))
+					return '%s (right operand as %s) answers %r but the normal forms of %s are %s: %r , %r -> %r , %r' % (shown, form, got, what, 'equal' if want else 'different', c['a'], c['b'], na, nb)
+	if c.get('pre') or c['a'].get('how') or c['b'].get('how'):
+		if (o['na']['cls'], o['na']['P'], o['na']['t']) != (o['nfa']['cls'], o['nfa']['P'], o['nfa']['t']):
+			return 'an object that was looked at through %r and compared normalises to %r, a fresh one built the same way to %r' % (c.get('pre'), o['na'], o['nfa'])
+	if o['fresh'] != [True, False, True, False, True, False]:
+		return 'an object that was looked at through %r against a fresh one built the same way: [a==fa, a!=fa, fa==a, fa!=a, b==fb, b!=fb] = %r (case %r)' % (c.get('pre'), o['fresh'], c)
+	if o['feq'] != [o['res']['obj']['eq'], o['res']['obj']['ne']]:
+		return 'the observed operands compare %r, fresh operands built the same way compare %r (case %r)' % ([o['res']['obj']['eq'], o['res']['obj']['ne']], o['feq'], c)
+	fail = _path_failure(ta[5], [None, o['na']['t'][5], o['na']['t'][5]])
+	if fail:
+		return 'left operand of %r: %s' % (c, fail)
 	return None
 
 
@@ -827,6 +1265,8 @@ def nontrivial(c, o):
 		return ('mut', repr(c['t']), repr(c['ops']))
 	if k == 'eq':
 		return ('eq', repr(c['xs']))
+	if k == 'ops':
+		return ('ops', repr(c['a']), repr(c['b']), repr(c.get('pre')))
 	if k == 'rds':
 		return ('rds', c['ps'][0])
 	return None
